@@ -1,15 +1,15 @@
-\* C08 quick: every scenario with at most 2 mutators in total, one representative per mutator class
+\* C08 quick: the construct executed from inside a trap action with another caught signal pending, at most 1 mutator
 CONSTANTS
   MaxPre = 1
   MaxChild = 2
   MaxPost = 1
-  MaxTotal = 2
+  MaxTotal = 1
   MinPre = 0
   MinTotal = 0
   Leaky = FALSE
   Alphabet <- CoreCmds
   Kinds <- AllKinds
-  Ctxs <- MainCtx
+  Ctxs <- TrapCtx
 INIT Init
 NEXT Next
 INVARIANTS NoForeignTrapAction EntryIsForkImage TrapRule SharedDescriptions Final Emit
